@@ -33,6 +33,7 @@ PROPS = {
     },
 
     "C05": {
+        "inventory": True,
         "level_text": 'Coq theorems by induction over all 62 ops and over exec (fuel induction, Compute children included): from any state satisfying the invariant (stack<=4096, memory<=10240, repeat<=4096, depth<=1, all words i64) every step and every execution preserves the invariant and never reaches a modelled panic/overflow site (unchecked +=, expect, indexing are explicit Panic outcomes in the model). Correspondence in two build profiles (overflow checks off/on) incl. limit sweeps that expose the state after every executed op.',
         "properties": "Properties/C05",
         "corr": ["Corr/RunVm"],
@@ -130,5 +131,38 @@ PROPS = {
                 "every truncation, random valid/truncated/mutated serialisations; mapped structure compared field by field (indices, ops(), "
                 "op(i) for i up to len+1, from_iter); plus VM programs (jumps, repeats, compute) executed three ways from the same state",
         "assumes": [],
+    },
+    "C16": {
+        "level_text": "Coq theorems: check_set accepts exactly the sets with 1..=100 solutions, <=100 slots of <=10000 words, <=1000 mutations in total with keys <=1000 and values <=10000 words and no key twice within a solution (iff, literal limits; the constants are regenerated from the Rust sources); predicate/contract/signed-contract validators iff their limits; the set returned by the mutation-computing check and by the two-pass check keeps the one-mutation-per-slot rule (a computed mutation duplicating a declared key is an error). Correspondence: each limit at/below/above its bound in combinations, permutations of small sets, and computed-vs-declared overlaps through the graph engine.",
+        "properties": "Properties/C16",
+        "corr": ["Corr/RunTypes", "Corr/RunGraph"],
+        "engines": [
+            {"engine": "types", "quick": 500, "thorough": 6000, "args": ["--kinds", "validate"]},
+            {"engine": "graph", "name": "graph16", "quick": 300, "thorough": 5000},
+        ],
+        "rule": "boundary grid over number of solutions {0,1,2,3,100,101}, slots {0,1,100,101}, slot words {0,3,10000,10001}, total mutations "
+                "{999,1000,1001}, key words {1000,1001}, value words {10000,10001}, duplicate key within / across solutions; predicates with "
+                "nodes/edges {0,1,999,1000,1001}; contracts with {0,1,99,100,101} predicates; graph cases whose data outputs overlap declared keys",
+        "assumes": ["signature validity is an oracle (secp256k1)"],
+    },
+    "C17": {
+        "level_text": "Coq theorems for an arbitrary hash function H: contract and set pre-images are invariant under permutation (sorted address lists are determined by their multiset), the address-list pre-images are injective up to multiset and salt, the postcard encoding of a solution is prefix-free and injective (varint/zig-zag round trips, a proved decoder), the predicate pre-image is its binary encoding (injective, reported size = length = 34n+2e+4), helpers agree, unencodable predicates map to the zero address (and therefore collide - stated). Correspondence recomputes every address with a Gallina SHA-256 over the model's pre-image and compares with essential_hash::content_addr, incl. all permutations of small contracts/sets and the from_*_addrs helpers.",
+        "properties": "Properties/C17",
+        "corr": ["Corr/RunTypes"],
+        "engines": [{"engine": "types", "quick": 600, "thorough": 8000, "args": ["--kinds", "addr,pred"]}],
+        "rule": "random predicates (0..4 nodes, 0..5 edges incl. leaf markers), programs of 0..150 bytes, solutions with 0..2 slots and 0..3 mutations, "
+                "contracts of 0..2 predicates with random salt and sets of 0..2 solutions with ALL permutations, predicate encode/decode/size",
+        "assumes": ["injectivity is of the pre-image, i.e. up to SHA-256 collisions (by statement)"],
+    },
+    "C19": {
+        "level": "proof",
+        "level_text": "Coq theorems under an explicit correctness hypothesis for the abstract recoverable signature scheme (never an axiom): sign-then-recover returns the signer's key for any predicate order; the signed digest is H of the contract pre-image and a changed salt or predicate-address multiset changes the signed bytes unless H collides (the step to 'a different key is recovered' is the ECDSA assumption and is not claimed); recovery ids outside 0..3 and malformed signatures are errors, never panics; the 33-byte/5-word and 65-byte/9-word encodings are injective; the VM's RecoverSecp256k1 consumes exactly sign::encode::signature and produces exactly sign::encode::public_key. Correspondence with real secp256k1 keys: sign/recover/verify, all predicate permutations, single-bit and structural tamperings, recovery ids 0..255 sampled, VM op vs sign crate. Partial: the binding itself rests on ECDSA and SHA-256.",
+        "properties": "Properties/C19",
+        "corr": ["Corr/RunSign"],
+        "engines": [{"engine": "sign", "quick": 250, "thorough": 5000}],
+        "rule": "seeded secret keys, contracts of 0..2 random predicates with zero/random salt; per case: recover, verify, recover over all predicate "
+                "permutations, 3-7 tamperings (salt bit, added edge/node, dropped/added predicate, program address bit, signature bit), 11 recovery ids, "
+                "sign::encode of key and signature, and the VM op executed on words4(address) ++ encoded signature",
+        "assumes": ["secp256k1 ECDSA recover(sign(sk, h)) = pk(sk) (hypothesis of the theorems; sampled by the correspondence)", "unforgeability and collision resistance are cryptographic assumptions, not claimed"],
     },
 }
